@@ -185,6 +185,10 @@ def shards(tier, seed):
     out = []
     nk = 3 if tier == 'quick' else 4
     mapfams = F.rotate(F.FAMILIES, seed * 5, 6) if tier == 'quick' else ['OO', 'II', 'LQ', 'fs', 'IF']
+    if tier == 'quick':
+        # always: the family with byte-string values (compared with memcmp), a float-valued and an object-valued one
+        fixed = ['fs', ['IF', 'LF', 'QF', 'UF'][seed % 4], ['IO', 'LO', 'OO', 'QO', 'UO'][seed % 5]]
+        mapfams = fixed + [f for f in mapfams if f not in fixed][:3]
     work = []
     for fam in mapfams:
         work.append({'fam': fam, 'kind': 'Bucket', 'nkeys': nk})
